@@ -60,9 +60,17 @@ def type_ok(res, how):
     return type(res) is want
 
 
+def needle(a):
+    """['S', text] / ['T', text]: a styled AnsiString / AnsiStr needle for `in` (judged by its base text)."""
+    if isinstance(a, (list, tuple)):
+        v = AnsiString(a[1], AnsiSetting('31'))
+        return AnsiStr(v) if a[0] == 'T' else v
+    return a
+
+
 def call(obj, meth, args):
     if meth == 'in':
-        return args[0] in obj
+        return needle(args[0]) in obj
     if meth == 'len':
         return len(obj)
     return getattr(obj, meth)(*args)
@@ -72,7 +80,8 @@ def oracle(t, meth, args):
     """What the statement demands: ('val', value) or ('exc', type)."""
     try:
         if meth == 'in':
-            return 'val', args[0] in t
+            a = args[0]
+            return 'val', (a[1] if isinstance(a, (list, tuple)) else a) in t
         if meth == 'len':
             return 'val', len(t)
         if meth == 'center':
@@ -165,6 +174,8 @@ def search_cases(t, b):
     bnds = list(range(-L - 1, L + 2)) + [None]
     for p in pats:
         yield 'in', (p,)
+        yield 'in', (['S', p],)
+        yield 'in', (['T', p],)
         for m in ('count', 'find', 'rfind', 'index', 'rindex', 'endswith'):
             yield m, (p,)
             for i in bnds:
